@@ -40,6 +40,14 @@ fn quire_states() -> std::sync::Arc<Vec<[u64; 8]>> {
                             let odd = W512::from_shifted(1, j - d1 + 1).unwrap();
                             v.push(base.add(odd).add(t));
                         }
+                        // two far bits at the same offset of different 64-bit words (a sticky fold that is not an OR loses them)
+                        for gap in [64u32, 128, 65] {
+                            if d2 + gap <= j && d1 % 3 == 1 {
+                                let t2 = W512::from_shifted(1, j - d2 - gap).unwrap();
+                                v.push(base.add(t).add(t2));
+                                v.push(base.add(t).add(t2).neg());
+                            }
+                        }
                     }
                 }
             }
@@ -50,6 +58,31 @@ fn quire_states() -> std::sync::Arc<Vec<[u64; 8]>> {
                 let g = W512::from_shifted(1, j - d.min(j)).unwrap();
                 v.extend([p.add(g), p.add(g).add(one), p.add(g).sub(one)]);
             }
+        }
+    }
+    // unstructured multi-word states: every bit length x 8 fixed pseudo-random fills, both signs
+    let mut st: u64 = 0x2545_F491_4F6C_DD1D;
+    for l in 1..511u32 {
+        for _ in 0..8 {
+            let mut limbs = [0u64; 8];
+            for x in limbs.iter_mut() {
+                st = st.wrapping_mul(6364136223846793005).wrapping_add(1442695040888963407);
+                *x = st ^ (st >> 29) ^ (st << 35);
+            }
+            let top = (l - 1) as usize;
+            for (k, x) in limbs.iter_mut().enumerate() {
+                if k > top / 64 {
+                    *x = 0;
+                } else if k == top / 64 {
+                    if top % 64 < 63 {
+                        *x &= (1u64 << (top % 64 + 1)) - 1;
+                    }
+                    *x |= 1u64 << (top % 64);
+                }
+            }
+            let w = W512(limbs);
+            v.push(w);
+            v.push(w.neg());
         }
     }
     let mut out: Vec<[u64; 8]> = v.into_iter().map(|w| w.to_be()).collect();
